@@ -3,6 +3,8 @@ package props
 import (
 	"fmt"
 	"go/token"
+	"go/types"
+	"sort"
 	"strings"
 
 	"golang.org/x/tools/go/ssa"
@@ -12,15 +14,20 @@ import (
 
 func init() {
 	register(&Prop{
-		ID:    "C07",
-		Title: "Messages are isolated: no aliasing between callers and stored state",
-		Explanation: "R07.1 published messages are never written: a taint analysis over SSA marks as published every load of Value.value / item.body, every result of Value.Get/Set and Collection.Get/List/Add/Update/Delete, the Value/OldValue/NewValue of change events, and the `old` argument of every interceptor / expected-check / change function, propagates through field and element loads, slices, type assertions, local variables and module callees (summarised bottom-up), treats proto.Clone and allocations as fresh, and reports stores, map updates, copy-into, append onto a sub-slice, sort and known mutator calls (proto.Merge dst, proto.Reset, fmutils.*, ResponseFilter.Filter, reflection Set/Clear) that reach a published message or a fresh container of published messages. Scope: pkg/resource, pkg/masks, internal/minibus and every hand-written package under pkg/trait. R07.2 the message saved by a write is built on proto.Clone(old) (GetAndUpdate) and the caller's message only enters as the source of the masked merge. R07.3 stored items are replaced, never modified (shared with R02.6). Does NOT decide isolation through reflection-based user code or third-party calls missing from the summary table; initial values are stored without copying (constructor input).",
+		ID:          "C07",
+		Title:       "Messages are isolated: no aliasing between callers and stored state",
+		Explanation: "R07.1 published messages are never written: a taint analysis over SSA marks as published every load of Value.value / item.body, every result of Value.Get/Set and Collection.Get/List/Add/Update/Delete, the Value/OldValue/NewValue of change events, and the `old` argument of every interceptor / expected-check / change function, propagates through field and element loads, slices, type assertions, local variables and module callees (summarised bottom-up), treats proto.Clone and allocations as fresh, and reports stores, map updates, copy-into, append onto a sub-slice, sort and known mutator calls (proto.Merge dst, proto.Reset, fmutils.*, ResponseFilter.Filter, reflection Set/Clear) that reach a published message or a fresh container of published messages. Scope: pkg/resource, pkg/masks, internal/minibus and every hand-written package under pkg/trait. R07.8 no reference crosses the API boundary of a trait model: an exported method neither keeps the caller's message (or a part of it) in the model's state nor stores a reference to the model's state inside the caller's message. R07.2 the message saved by a write is built on proto.Clone(old) (GetAndUpdate) and the caller's message only enters as the source of the masked merge. R07.3 stored items are replaced, never modified (shared with R02.6). Does NOT decide isolation through reflection-based user code or third-party calls missing from the summary table; initial values are stored without copying (constructor input).",
 		Assumptions: []string{"proto.Clone returns a deep copy; proto.Merge(dst, src) deep-copies from src and writes only dst; fmutils.Filter/Prune and proto.Reset write only their message argument"},
 		Run:         runC07,
 		Controls: []Control{
+			{Name: "revert-F56-waste-keeps-callers-record", File: "pkg/trait/wastepb/model.go", Old: "append(m.allWasteRecords, proto.Clone(wr).(*traits.WasteRecord))", New: "append(m.allWasteRecords, wr)", Expect: "R07.8"},
+			{Name: "revert-F57-light-preset-into-request", File: "pkg/trait/lightpb/model.go", Old: "b.Preset = proto.Clone(p.LightPreset).(*traits.LightPreset)", New: "b.Preset = p.LightPreset", Expect: "R07.8"},
+			{Name: "revert-F58-openclose-preset-into-request", File: "pkg/trait/openclosepb/model.go", Old: "\t\t\tpositions.States[i] = proto.Clone(position).(*traits.OpenClosePosition)\n", New: "\t\t\tpositions.States[i] = position\n", Expect: "R07.8"},
+			{Name: "waste-keeps-stored-result", Silent: true, File: "pkg/trait/wastepb/model.go", Old: "append(m.allWasteRecords, proto.Clone(wr).(*traits.WasteRecord))", New: "append(m.allWasteRecords, proto.Clone(v).(*traits.WasteRecord))"},
+			{Name: "mode-relative-adjusts-old-map", File: "pkg/trait/modepb/model_server.go", Old: "\t\tif newVal.Values == nil {\n\t\t\tnewVal.Values = make(map[string]string)\n\t\t}\n", New: "\t\tif newVal.Values == nil {\n\t\t\tnewVal.Values = oldVal.Values\n\t\t}\n\t\tif newVal.Values == nil {\n\t\t\tnewVal.Values = make(map[string]string)\n\t\t}\n", Expect: "relativeAdjustment"},
 			{Name: "revert-F43-merge-filters-src-in-place", File: "pkg/masks/update.go", Old: "\tsrc = proto.Clone(src)\n", New: "", Expect: "R07.7"},
 			{Name: "gau-passes-old-as-dst", File: "pkg/resource/atomic.go", Old: "\tnewValue = proto.Clone(oldValue)\n", New: "\tnewValue = oldValue\n", Expect: "R07.2"},
-			{Name: "filterclone-filters-original", File: "pkg/masks/get.go", Old: "\tclone := proto.Clone(msg)\n\tfmutils.Filter(clone, r.fields.GetPaths())\n\treturn clone", New: "\tfmutils.Filter(msg, r.fields.GetPaths())\n\treturn msg", Expect: "R07.1"},
+			{Name: "filterclone-filters-original", File: "pkg/masks/get.go", Old: "\tfmutils.Filter(clone, paths)\n\treturn clone", New: "\tfmutils.Filter(msg, paths)\n\treturn msg", Expect: "R07.1"},
 			{Name: "interceptor-writes-old", File: "pkg/trait/enterleavesensorpb/model.go", Old: "\t\tvalueVal.EnterTotal = adjustTotal(valueVal.EnterTotal, currentVal.EnterTotal, valueVal.Direction == traits.EnterLeaveEvent_ENTER)", New: "\t\tcurrentVal.EnterTotal = adjustTotal(valueVal.EnterTotal, currentVal.EnterTotal, valueVal.Direction == traits.EnterLeaveEvent_ENTER)\n\t\tvalueVal.EnterTotal = currentVal.EnterTotal", Expect: "R07.1"},
 			{Name: "pull-sorts-delivered-list", File: "pkg/trait/parentpb/model.go", Old: "\tmsgs := m.children.List()\n", New: "\tmsgs := m.children.List()\n\tif len(msgs) > 0 {\n\t\tmsgs[0].(*traits.Child).Traits = nil\n\t}\n", Expect: "R07.1"},
 			{Name: "revert-F7a-union-in-place", File: "pkg/trait/parentpb/model.go", Old: "\thas = append(make([]*traits.Trait, 0, len(has)+len(more)), has...)\n", New: "", Expect: "traitUnion"},
@@ -130,6 +137,26 @@ func publishedWorld(c *an.Ctx) *an.MutWorld {
 			}
 		})
 	}
+	// an interceptor built elsewhere and handed over as a value (InterceptBefore(m.relativeAdjustment(…))): every function
+	// converted to the interceptor type receives the stored message as its first argument
+	for fn := range c.Prog.AllFuncs {
+		an.Instrs(fn, func(in ssa.Instruction) {
+			ct, ok := in.(*ssa.ChangeType)
+			if !ok || an.NamedTypeName(ct.Type()) != res+"UpdateInterceptor" {
+				return
+			}
+			var f *ssa.Function
+			switch x := ct.X.(type) {
+			case *ssa.MakeClosure:
+				f = x.Fn.(*ssa.Function)
+			case *ssa.Function:
+				f = x
+			}
+			if f != nil && len(f.Params) > 0 && len(f.Blocks) > 0 {
+				w.ParamSource[f.Params[0]] = true
+			}
+		})
+	}
 	// receivers of the change helpers (include / filter) are events shared by every subscriber
 	for _, tn := range []string{"CollectionChange", "ValueChange"} {
 		for _, mn := range []string{"include", "filter"} {
@@ -226,6 +253,8 @@ func runC07(c *an.Ctx) {
 	c.Min("R07.2", 4)
 	c.Min("R07.3", 2)
 	r077(c)
+	r078(c)
+	c.Min("R07.8", 20)
 	c.Min("R07.7", 1)
 }
 
@@ -236,35 +265,36 @@ func r072(c *an.Ctx) {
 		q := an.ModulePath + "/pkg/resource."
 		get, change := paramOfType(fn, q+"GetFn"), paramOfType(fn, q+"ChangeFn")
 		if get != nil && change != nil {
-			for i, ch := range callsOfParam(fn, change) {
-				var cloneOfGet func(v ssa.Value, depth int) bool
-				cloneOfGet = func(v ssa.Value, depth int) bool {
+			gets := deepCallsOfParam(fn, get)
+			for i, ch := range deepCallsOfParam(fn, change) {
+				var cloneOfGet func(v ssa.Value, chain []*ssa.Call, depth int) bool
+				cloneOfGet = func(v ssa.Value, chain []*ssa.Call, depth int) bool {
 					if depth > 4 {
 						return false
 					}
-					vals := an.ValuesAt(v)
+					vals := deepLeaves(v, chain, 0)
 					if len(vals) == 0 {
 						return false
 					}
 					for _, x := range vals {
-						cl, isCall := x.(*ssa.Call)
+						cl, isCall := x.v.(*ssa.Call)
 						if !isCall || an.CalleeName(cl) != "google.golang.org/protobuf/proto.Clone" {
 							return false
 						}
 						direct := false
-						for _, g := range callsOfParam(fn, get) {
-							if valueIsResult(cl.Call.Args[0], g, 0) {
+						for _, g := range gets {
+							if deepIsResult(cl.Call.Args[0], x.chain, g, 0) {
 								direct = true
 							}
 						}
-						if !direct && !cloneOfGet(cl.Call.Args[0], depth+1) {
+						if !direct && !cloneOfGet(cl.Call.Args[0], x.chain, depth+1) {
 							return false
 						}
 					}
 					return true
 				}
-				ok := cloneOfGet(ch.Call.Args[1], 0)
-				c.Check(ok, rule, fmt.Sprintf("pkg/resource.GetAndUpdate|change#%d works on a clone of the stored value", i+1), ch.Pos(), "dst = proto.Clone(old)",
+				ok := cloneOfGet(ch.call.Call.Args[1], ch.chain, 0)
+				c.Check(ok, rule, fmt.Sprintf("pkg/resource.GetAndUpdate|change#%d works on a clone of the stored value", i+1), ch.call.Pos(), "dst = proto.Clone(old)",
 					"the destination handed to the change function is not proto.Clone of the value just read: the write modifies the stored message in place (every earlier reader sees it change) or starts from something else")
 			}
 		}
@@ -576,4 +606,241 @@ func r077(c *an.Ctx) {
 	}
 	c.Check(len(fs) == 0, rule, "(*pkg/masks.FieldUpdater).Merge|the written message is only read", pos, "no mutator reaches src",
 		"Merge modifies the message being written ("+describeFindings(c, fs)+"): a masked or writable-field-restricted write trims the caller's message and prunes every message that shares a sub-message with it - e.g. lightpb's preset (assigned into the written Brightness by the model) loses its title after UpdateBrightness(…, WithUpdatePaths(\"preset.name\")), so what DescribeBrightness returned earlier changes because of a later write")
+}
+
+// r078: no aliasing across the API boundary of a trait model. A message passed to an exported method of a model stays
+// the caller's: the caller may go on changing it. So (a) the model never keeps a reference to it or to one of its parts
+// in its own state - a field store, an append or map update on a field of the receiver whose stored value is the
+// parameter or is loaded from it - and (b) never plants a reference to its own state (a preset, a stored slice) inside
+// the caller's message, where the caller's next edit would change the model. Handing the message to a resource write is
+// not keeping it: the masked merge copies (R07.2).
+func r078(c *an.Ctx) {
+	const rule = "R07.8"
+	n := 0
+	for _, m := range c.Prog.FuncsIn("pkg/trait") {
+		if c.Prog.IsGenerated(m.Pos()) || m.Parent() != nil || m.Signature.Recv() == nil || len(m.Params) < 2 {
+			continue
+		}
+		if obj := m.Object(); obj == nil || !obj.Exported() {
+			continue
+		}
+		recv := m.Params[0]
+		if !strings.HasSuffix(an.NamedTypeName(recv.Type()), ".Model") {
+			continue
+		}
+		var msgs []*ssa.Parameter
+		for _, p := range m.Params[1:] {
+			if isGeneratedMessagePtr(c, p.Type()) {
+				msgs = append(msgs, p)
+			}
+		}
+		if len(msgs) == 0 {
+			continue
+		}
+		n++
+		c.SawFunc(an.FuncName(m))
+		// the method and the unexported helpers of the model it hands its arguments to
+		type frame struct {
+			fn   *ssa.Function
+			bind map[*ssa.Parameter]string // parameter of fn -> "recv" | "msg"
+		}
+		frames := []frame{{m, map[*ssa.Parameter]string{recv: "recv"}}}
+		for _, p := range msgs {
+			frames[0].bind[p] = "msg"
+		}
+		seen := map[*ssa.Function]bool{m: true}
+		var bad []string
+		var badPos ssa.Instruction
+		for fi := 0; fi < len(frames) && fi < 8; fi++ {
+			fr := frames[fi]
+			var rootsOf func(v ssa.Value, depth int) map[string]bool
+			rootsOf = func(v ssa.Value, depth int) map[string]bool {
+				out := map[string]bool{}
+				if depth > 10 || v == nil {
+					return out
+				}
+				merge := func(r map[string]bool) {
+					for k := range r {
+						out[k] = true
+					}
+				}
+				switch x := v.(type) {
+				case *ssa.Parameter:
+					if k, ok := fr.bind[x]; ok {
+						out[k] = true
+					}
+				case *ssa.FreeVar:
+					if b := an.FreeVarBinding(x); b != nil {
+						merge(rootsOf(b, depth+1))
+					}
+				case *ssa.FieldAddr:
+					merge(rootsOf(x.X, depth+1))
+				case *ssa.Field:
+					merge(rootsOf(x.X, depth+1))
+				case *ssa.IndexAddr:
+					merge(rootsOf(x.X, depth+1))
+				case *ssa.Index:
+					merge(rootsOf(x.X, depth+1))
+				case *ssa.Lookup:
+					merge(rootsOf(x.X, depth+1))
+				case *ssa.Slice:
+					merge(rootsOf(x.X, depth+1))
+				case *ssa.Extract:
+					merge(rootsOf(x.Tuple, depth+1))
+				case *ssa.TypeAssert:
+					merge(rootsOf(x.X, depth+1))
+				case *ssa.ChangeType:
+					merge(rootsOf(x.X, depth+1))
+				case *ssa.MakeInterface:
+					merge(rootsOf(x.X, depth+1))
+				case *ssa.Phi:
+					for _, e := range x.Edges {
+						merge(rootsOf(e, depth+1))
+					}
+				case *ssa.Next:
+					merge(rootsOf(x.Iter, depth+1))
+				case *ssa.Range:
+					merge(rootsOf(x.X, depth+1))
+				case *ssa.UnOp:
+					if x.Op != token.MUL {
+						break
+					}
+					if al, isAlloc := x.X.(*ssa.Alloc); isAlloc {
+						// a local variable: what was stored into it
+						for _, st := range an.StoresTo(&an.Cell{Alloc: al}) {
+							merge(rootsOf(st.Val, depth+1))
+						}
+						break
+					}
+					merge(rootsOf(x.X, depth+1))
+				case *ssa.Alloc:
+					// a local struct copy (`for _, p := range m.presets`): the struct stored into it
+					for _, st := range an.StoresTo(&an.Cell{Alloc: x}) {
+						merge(rootsOf(st.Val, depth+1))
+					}
+					// a literal array or struct (the backing array of append's variadic arguments): what its elements hold
+					for _, u := range an.Referrers(x) {
+						switch a := u.(type) {
+						case *ssa.IndexAddr, *ssa.FieldAddr:
+							for _, u2 := range an.Referrers(a.(ssa.Value)) {
+								if st, isSt := u2.(*ssa.Store); isSt && st.Addr == a.(ssa.Value) {
+									merge(rootsOf(st.Val, depth+1))
+								}
+							}
+						}
+					}
+				case *ssa.Call:
+					name := an.CalleeName(x)
+					if name == "google.golang.org/protobuf/proto.Clone" {
+						break // a copy
+					}
+					if name == "builtin append" {
+						for _, a := range x.Call.Args {
+							merge(rootsOf(a, depth+1))
+						}
+						break
+					}
+					// generated getters and the model's own unexported accessors hand out what the receiver holds
+					if cal := x.Call.StaticCallee(); cal != nil && cal.Signature.Recv() != nil && len(x.Call.Args) > 0 {
+						if c.Prog.IsGenerated(cal.Pos()) && strings.HasPrefix(cal.Name(), "Get") {
+							merge(rootsOf(x.Call.Args[0], depth+1))
+						} else if cal.Package() == m.Package() && cal.Object() != nil && !cal.Object().Exported() {
+							merge(rootsOf(x.Call.Args[0], depth+1))
+						}
+					}
+				}
+				return out
+			}
+			pointerish := func(t types.Type) bool {
+				switch u := t.Underlying().(type) {
+				case *types.Pointer, *types.Map, *types.Interface:
+					return true
+				case *types.Slice:
+					_, isBasic := u.Elem().Underlying().(*types.Basic)
+					return !isBasic
+				}
+				return false
+			}
+			for _, f := range an.WithClosures(fr.fn) {
+				an.Instrs(f, func(in ssa.Instruction) {
+					switch x := in.(type) {
+					case *ssa.Store:
+						if !pointerish(x.Val.Type()) {
+							return
+						}
+						if _, isAlloc := x.Addr.(*ssa.Alloc); isAlloc {
+							return // a local variable
+						}
+						to, from := rootsOf(x.Addr, 0), rootsOf(x.Val, 0)
+						if to["recv"] && from["msg"] {
+							bad = append(bad, "keeps a reference to the caller's message (or a part of it) in the model's state")
+							badPos = in
+						}
+						if to["msg"] && from["recv"] {
+							bad = append(bad, "stores a reference to the model's own state inside the caller's message")
+							badPos = in
+						}
+					case *ssa.MapUpdate:
+						if pointerish(x.Value.Type()) && rootsOf(x.Map, 0)["recv"] && rootsOf(x.Value, 0)["msg"] {
+							bad = append(bad, "keeps a reference to the caller's message in a map of the model")
+							badPos = in
+						}
+					case *ssa.Call:
+						// hand-over to an unexported helper of the same package: follow with the arguments bound
+						cal := x.Call.StaticCallee()
+						if cal == nil || seen[cal] || cal.Package() != m.Package() || len(cal.Blocks) == 0 || cal.Object() == nil || cal.Object().Exported() {
+							return
+						}
+						b := map[*ssa.Parameter]string{}
+						for i, a := range x.Call.Args {
+							if i >= len(cal.Params) {
+								break
+							}
+							r := rootsOf(a, 0)
+							switch {
+							case r["msg"] && !r["recv"]:
+								b[cal.Params[i]] = "msg"
+							case r["recv"] && !r["msg"]:
+								b[cal.Params[i]] = "recv"
+							}
+						}
+						hasMsg := false
+						for _, k := range b {
+							if k == "msg" {
+								hasMsg = true
+							}
+						}
+						if hasMsg {
+							seen[cal] = true
+							frames = append(frames, frame{cal, b})
+						}
+					}
+				})
+			}
+		}
+		key := an.FuncName(m) + "|no reference crosses the API boundary"
+		if len(bad) > 0 {
+			sort.Strings(bad)
+			c.Bad(rule, key, badPos.Pos(), "the method "+strings.Join(uniqStrings(bad), " and ")+": the caller may change its message after the call, and that edit then changes what the model holds (a stored record, a preset every later update copies from)")
+		} else {
+			c.Ok(rule, key, m.Pos(), fmt.Sprintf("%d message parameter(s)", len(msgs)))
+		}
+	}
+	c.Count("model_methods_taking_messages", n)
+}
+
+// isGeneratedMessagePtr: *T with T a struct generated by protoc (declared in a .pb.go file).
+func isGeneratedMessagePtr(c *an.Ctx, t types.Type) bool {
+	p, ok := t.(*types.Pointer)
+	if !ok {
+		return false
+	}
+	nt, ok := p.Elem().(*types.Named)
+	if !ok {
+		return false
+	}
+	if _, isStruct := nt.Underlying().(*types.Struct); !isStruct {
+		return false
+	}
+	return strings.HasSuffix(c.Prog.SSA.Fset.Position(nt.Obj().Pos()).Filename, ".pb.go")
 }
